@@ -218,9 +218,26 @@ structure InvL (g : Ghost) (s : KState ℚ σ) : Prop where
   live : g.lv = true → ∀ p pr, s.proc? p = some pr → (s.ev p).out = none → g.run ≠ some p →
     ∃ t, pr.target = some t ∧ t < s.events.size ∧ Held g s p t
 
+/-- the converse of `InvC.ag_live`: **every triggered, unprocessed event is in the agenda** (so it will be processed,
+and its waiters resumed, if the run goes on) -/
+def InvS (s : KState ℚ σ) : Prop :=
+  ∀ e, (s.ev e).out ≠ none → (s.ev e).cbs ≠ none → ∃ q ∈ s.agenda, q.ev = e
+
+/-- the same, except for event `x` (the state between `_ok/_value = …` and `env.schedule(…)`) -/
+def InvSx (x : EvId) (s : KState ℚ σ) : Prop :=
+  ∀ e, e ≠ x → (s.ev e).out ≠ none → (s.ev e).cbs ≠ none → ∃ q ∈ s.agenda, q.ev = e
+
 structure Inv (g : Ghost) (s : KState ℚ σ) : Prop where
   c : InvC g s
   q : InvQ s
   l : InvL g s
+  s : InvS s
+
+/-- the invariant in the middle of a trigger: event `x` has its outcome but is not scheduled yet -/
+structure InvX (x : EvId) (g : Ghost) (s : KState ℚ σ) : Prop where
+  c : InvC g s
+  q : InvQ s
+  l : InvL g s
+  sx : InvSx x s
 
 end Once
